@@ -53,9 +53,9 @@ var c04Chunks = []int{1, 1, 2, 3, 7, 1000, 1 << 40, math.MaxInt} // "in chunks o
 
 func genC04(t *rapid.T) C04Case {
 	cfg := kit.DefaultTreeGen()
-	cfg.CorruptPct = 2
+	cfg.CorruptPct = 5
 	cfg.ExtraCorruptions = []string{"timestamp-future"}
-	cfg.BadIntentPct = 1
+	cfg.BadIntentPct = 2
 	cfg.ForkPct = 28
 	cfg.Kinds = []string{"pay", "sf", "form", "fcop", "fcop", "attest", "arb"}
 	if kit.Chance(t, 15, "linear-shared") {
@@ -420,6 +420,9 @@ func runC04(c C04Case, cs *kit.CaseStats) error {
 				}
 				serr = node.CM.AddValidatedV2Blocks(blocks, states)
 				cs.Class("call=AddValidatedV2Blocks")
+				if serr != nil {
+					cs.Class("call=AddValidatedV2Blocks:failed")
+				}
 			} else {
 				serr = node.Submit(blocks)
 			}
